@@ -90,8 +90,11 @@ def units_for(pid, quick):
             us.append(ind('exists/%d' % n, kc, obl, ('exists_impl',)))
             us.append(byc('all/%d' % n, kc, obl, ('not', 'exists')))
         for n in (1, 2, 3):
-            us.append(U('exists/%d k=%d full recursion' % (n, 3 if quick else 4), 'exists/%d' % n, 3 if quick else 4, obligations=obl, timeout=to))
-            us.append(U('all/%d k=%d full recursion' % (n, 3 if quick else 4), 'all/%d' % n, 3 if quick else 4, obligations=obl, timeout=to))
+            # three-element lists with the full recursion at k=4 took 50 min alone and ran into the unit cap beside other
+            # work: they stay at k=3 in both tiers (k=4 / 5 for them is covered by the contract and induction units above)
+            kk = 3 if (quick or n == 3) else 4
+            us.append(U('exists/%d k=%d full recursion' % (n, kk), 'exists/%d' % n, kk, obligations=obl, timeout=to))
+            us.append(U('all/%d k=%d full recursion' % (n, kk), 'all/%d' % n, kk, obligations=obl, timeout=to))
         st = [('exists_impl: or -> and', 'exists_impl', 2, dict(obligations=('sem',), witness=False,
                                                                 mutate=('exists_impl', 'BDDEnv::<S>::or(', 'BDDEnv::<S>::and(')))]
     elif pid == 'C05':
